@@ -649,6 +649,10 @@ func (c *Cluster) CheckReplica(r *Replica, proofs bool) {
 	if !proofs || b.Version() == 0 {
 		return
 	}
+	if int(b.Version()) > len(c.Acked) || int(b.Version()) > len(c.Events) {
+		c.viol("[C05] a replica holds more events than the leader acknowledged", more)
+		return
+	}
 	cur := b.Version() - 1
 	for v := uint64(0); v <= cur; v++ {
 		e := c.Events[v]
@@ -670,10 +674,7 @@ func (c *Cluster) CheckReplica(r *Replica, proofs bool) {
 			if p.CurrentVersion != cur {
 				c.viol("[C05] the current version reported by a proof is not the number of applied events minus one", m2)
 			}
-			snap := &balloon.Snapshot{HistoryDigest: c.Acked[q].HistoryDigest, HyperDigest: g.Snaps[cur].HyperDigest}
-			if int(cur) < len(c.Acked) {
-				snap.HyperDigest = c.Acked[cur].HyperDigest
-			}
+			snap := &balloon.Snapshot{HistoryDigest: c.Acked[q].HistoryDigest, HyperDigest: c.Acked[cur].HyperDigest}
 			w, _, err := hx.WireMembership(p)
 			if err != nil || !p.Exists || !w.DigestVerify(e, snap) {
 				c.viol("[C06] a membership proof served by a replica does not verify against the snapshots the leader acknowledged", m2)
